@@ -296,6 +296,14 @@ def run(rep, tier, seed):
             one = [pats[rnd.randrange(len(pats))]]
             check_fn(rep, fn, one, D, 1, 1, "scalar", fn["real"], "real")
             check_fn(rep, fn, [pats[rnd.randrange(len(pats))] for _ in range(2)], D, 2, 1, "scalar", fn["real"], "real")
+            # arguments in which EVERY element and direction has vanishing low-order coefficients (first non-zero order
+            # m >= 2, or none at all): kernels that decide something from the whole array (leading order, early exits)
+            for m in range(2, D + 1):
+                grp = [p_ for p_ in pats if not any(p_[0][1:m])]
+                if not grp or len(grp) == len(pats):
+                    continue
+                check_fn(rep, fn, grp[:40], D, 2, 1, "vec", fn["real"], "real, leading order >= %d everywhere" % m)
+                check_fn(rep, fn, [grp[rnd.randrange(len(grp))]], D, 1, 1, "scalar", fn["real"], "real, leading order >= %d, alone" % m)
             if fn["cplx"]:
                 # complex base point with real higher coefficients, and complex higher coefficients c*h
                 check_fn(rep, fn, pats, D, 2, 1, "vec", fn["cplx"], "complex base")
